@@ -12,6 +12,7 @@ FLAVOURS = {
     "faults": ["-faults"],
     "dagrun": ["-dagrun"],
     "live": ["-live", "30", "-tail", "0"],
+    "ff": ["-dyn", "-ff"],
 }
 
 def _tool_fingerprint():
@@ -50,7 +51,7 @@ def run(ctx, flavour="static"):
         shards, hist, maxn, steps = 16, 40, 10, 400
     else:
         shards, hist, maxn, steps = 16, 4, 6, 200
-    if flavour == "dyn":
+    if flavour in ("dyn", "ff"):
         steps, maxn = steps * 2, min(maxn, 5)
     if flavour == "dagrun":
         hist, steps = max(1, hist // 2), (steps * 3) // 4
